@@ -44,6 +44,14 @@ CLAIMED = {
             "For every protective constructor parameter of every built-in pruner (10 class/field pairs) every return of prune() that is not the constant False is dominated by the pass edge of a gate reading that parameter whose other edge returns False, with the comparison pointing the protecting way; NopPruner only returns False; ThresholdPruner prunes exactly under NaN/<lower/>upper; Hyperband returns False while uninitialised, delegates to SuccessiveHalving pruners built from its own parameters and its bracket id reads only study name, trial number and configuration. Decides that gates cannot be bypassed on any path; not the numeric 'strictly better is never pruned' clause.",
             "Protective-parameter table confirmed by reading the pruner docs; _is_first_in_interval_step's arithmetic is not decided.",
             "DESIGN.md §3 C16"),
+    "C12": ("sibling table of the five best-trial implementations; direction-duality matching; branch-edge dominance; finite-domain exploration (state=COMPLETE) for cache maintenance",
+            "All five best-trial implementations restrict candidates to COMPLETE trials, select max / replace-when-larger / desc / find_max under MAXIMIZE with mirror-image MINIMIZE arms, the SQL siblings rank INF_NEG < FINITE < INF_POS over exactly the enum's members as primary key, the in-memory cache is updated after publication on every path on which a trial becomes COMPLETE, errors mirror the base class, the constraint fallback and the Pareto front filter COMPLETE/feasible trials. Decides agreement of eligibility, orientation and infinity ranking across backends; not the vectorised Pareto arithmetic or SQL NaN handling.",
+            "Trusts SQLAlchemy case()/order_by semantics and Python max/min.",
+            "DESIGN.md §3 C12"),
+    "C13": ("census of all StudyDirection comparison sites with idiom classification; structural arm matching under the direction involution (sa/dual.py); module-closure coverage of consumers",
+            "Every StudyDirection comparison in samplers, pruners, storages and study (24 sites, per-package floors) is a branch that fits one of the repository's idioms and is locally dual: two-armed sites and sibling callees match structurally with every order-sensitive token (comparison, min/max family, sort order, alternative, mirrored index, tolerance shift, sign) opposite between the arms; sign ternaries are negations and are multiplied in; one-armed sites are negations/mirrors; every order-sensitive pruner and value-reading sampler reaches a direction site. Decides that no site compares the wrong way or forgets its mirror; not run-level equality (numerics) nor tie strictness.",
+            "Sites outside the anchors (terminator, importance, visualization) are census-only; unknown idioms give exit 2.",
+            "DESIGN.md §3 C13"),
 }
 
 NOT_APPLICABLE = {
